@@ -137,10 +137,23 @@ def ob_witness(modname, qualname, contracts_mod, witnesses):
     return proved("native-witness", "%d concrete inputs satisfy requires; real function meets ensures/raises on them" % n)
 
 
+def _outside_subset(qualname, msg):
+    """the function under contract must stay inside the Python subset the VC generator accepts; otherwise its contract is undecided."""
+    from vlib.framework import undecided
+
+    return undecided("verification conditions of %s could not be generated from the current source (%s); the contract is undecided -- "
+                     "either the function left the stated subset or the generator needs extending" % (qualname, msg[:300]))
+
+
 def add_function(run, modname, qualname, contracts_mod, witnesses):
     f = get_function(modname, qualname)
     run.under_contract(f, qualname="%s.%s" % (modname, qualname), dropped="@numba.njit decorator and its locals= type pins; integer widths (mathematical integers)")
-    obs = count(modname, qualname, contracts_mod)
+    try:
+        obs = count(modname, qualname, contracts_mod)
+    except Exception as e:  # noqa: the function left the verified subset (or the generator failed): undecided, never a crash of the check
+        msg = "%s: %s" % (type(e).__name__, e)
+        run.add("%s::within-verified-subset" % qualname, "post", _outside_subset, qualname, msg)
+        return
     if not obs:
         run.add("%s::no-obligations" % qualname, "post", _zero_obligations)
     for i, (name, kind, sat) in enumerate(obs):
